@@ -228,6 +228,18 @@ INVALID_TEXT = {
     "internal_module": "- debug:\n    msg: never\n  module: z\n",
     "internal_params": "- debug:\n    msg: never\n  params: y\n",
     "internal_global_params": "- debug:\n    msg: never\n  global_params: x\n",
+    # near-miss spellings of real task keywords: a dash for the underscore, another case, a plural, a blank
+    "dash_ignore_errors": "- debug:\n    msg: never\n  ignore-errors: true\n",
+    "dash_changed_when": "- debug:\n    msg: never\n  changed-when: false\n",
+    "dash_check_mode": "- debug:\n    msg: never\n  check-mode: true\n",
+    "dash_become_user": "- debug:\n    msg: never\n  become-user: root\n",
+    "case_when": "- debug:\n    msg: never\n  When: true\n",
+    "case_ignore_errors": "- debug:\n    msg: never\n  IGNORE_ERRORS: true\n",
+    "plural_loops": "- debug:\n    msg: never\n  loops: [1]\n",
+    "singular_var": "- debug:\n    msg: never\n  var: {a: 1}\n",
+    "joined_ignoreerrors": "- debug:\n    msg: never\n  ignoreerrors: true\n",
+    "blank_when": "- debug:\n    msg: never\n  \"when \": true\n",
+    "dotted_rash_dir": "- debug:\n    msg: never\n  rash.dir: x\n",
     "sequence_task": "- [debug, x]\n",
     "null_task": "- ~\n",
 }
